@@ -191,6 +191,9 @@ class GCACGMMTrainer:
             initialization /= np.einsum("...kt->...t", initialization)[
                 ..., None, :
             ]
+        elif initialization.dtype.kind in 'biu':
+            # Boolean or integer affiliations, e.g. from labels_to_one_hot
+            initialization = initialization.astype(np.float64)
 
         if saliency is None:
             saliency = np.ones_like(initialization[..., 0, :])
